@@ -403,8 +403,13 @@ func c07FirstUse() *core.Violation {
 func c07Bounded(r *core.Run, sc c07Scenario, want []core.Obs, bound int) {
 	var explore func(prefix []int)
 	stop := false
+	n := 0
 	explore = func(prefix []int) {
 		if stop {
+			return
+		}
+		if n++; n%256 == 0 && r.Expired() {
+			stop = true
 			return
 		}
 		x, v := c07Execute(r, sc, want, prefix)
@@ -446,7 +451,10 @@ func c07Bounded(r *core.Run, sc c07Scenario, want []core.Obs, bound int) {
 func c07AllStates(r *core.Run, sc c07Scenario, want []core.Obs) {
 	seen := map[string]bool{}
 	stack := [][]int{nil}
-	for len(stack) > 0 {
+	for n := 0; len(stack) > 0; n++ {
+		if n%256 == 0 && r.Expired() {
+			return
+		}
 		prefix := stack[len(stack)-1]
 		stack = stack[:len(stack)-1]
 		// replay the prefix, stop right after it, look at the state
